@@ -247,6 +247,46 @@ Theorem C09_client_returns :
 Proof. exact client_returns. Qed.
 Print Assumptions C09_client_returns.
 
+(* layer (c''): client credentials by VALUE (Basic header halves are form-urlencoded and decoded with url.QueryUnescape on
+   every endpoint of both routers; form credentials are compared as they arrive) *)
+Theorem C09_credentials_total :
+  forall k : kshape, cred_handler true true k = HRefused \/ cred_handler true true k = HAccepted.
+Proof. exact credentials_total. Qed.
+Print Assumptions C09_credentials_total.
+
+(* url.QueryUnescape undoes url.QueryEscape on EVERY byte string (space <-> '+', '+' <-> %2B, '%' <-> %25, any byte <-> %XX) *)
+Theorem C09_basic_escape_roundtrip : forall s : string, unescape true (query_escape s) = Ok s.
+Proof. exact unescape_query_escape. Qed.
+Print Assumptions C09_basic_escape_roundtrip.
+
+(* a client that encodes its registered id and secret the RFC 6749 2.3.1 way is accepted on every endpoint of both routers,
+   whatever bytes the id and the secret consist of *)
+Theorem C09_basic_conforming_client_accepted :
+  forall k : kshape, kshape_wf k = true -> k_sent k = SBasic (basic_payload (k_id k) (k_secret k)) ->
+    cred_handler true true k = HAccepted.
+Proof. exact cred_conforming_accepted. Qed.
+Print Assumptions C09_basic_conforming_client_accepted.
+
+(* acceptance only when what arrives DECODES to the registered id (and, wherever the secret is looked at, the registered
+   non-empty secret); in particular a header half with a malformed escape, or without a colon, is never accepted *)
+Theorem C09_credentials_accepted_only_registered :
+  forall k : kshape, cred_handler true true k = HAccepted ->
+    match k_sent k with
+    | SBasic p => exists i x, cut_colon p = Some (i, x) /\
+                              unescape true i = Ok (k_id k) /\ unescape true x = Ok (k_secret k) /\ k_secret k <> ""
+    | SPost i x => i = k_id k /\ (post_mode (k_entry k) (k_ep k) = PIdOnly \/ (x = k_secret k /\ x <> ""))
+    end.
+Proof. exact cred_accepted_only_registered. Qed.
+Print Assumptions C09_credentials_accepted_only_registered.
+
+(* seeded regression: the secret half decoded with url.PathUnescape ('+' stays) refuses a conforming client
+   whose secret contains a space *)
+Theorem C09_basic_path_unescape_refuted :
+  exists k, kshape_wf k = true /\ k_sent k = SBasic (basic_payload (k_id k) (k_secret k)) /\
+            cred_handler true false k = HRefused.
+Proof. exact basic_path_unescape_refuted. Qed.
+Print Assumptions C09_basic_path_unescape_refuted.
+
 (* the property predicate holds on the model's answer to every input *)
 Theorem C09_spec_model : forall i : input, spec i (model i) = true.
 Proof. exact spec_model. Qed.
